@@ -637,33 +637,23 @@ def d3_negative_powers(ctx, idx):
     flag_attr = None
     with r:
         cm = idx.func(AQ + '.enable_negative_powers')
-        if 'contextmanager' not in ' '.join(cm.decorators) or 'classmethod' not in ' '.join(cm.decorators):
-            raise AnalysisError('enable_negative_powers is no longer a classmethod context manager')
-        if len(cm.params) != 2:
-            raise AnalysisError('enable_negative_powers: unexpected signature')
-        clsp, valp = cm.params
-        yields = [n for n in walk_own(cm.node) if isinstance(n, ast.Yield)]
-        if len(yields) != 1:
-            raise AnalysisError('enable_negative_powers: expected one yield')
-        cfg = cfg_of(cm.node)
-        ynodes = lib.cfg_nodes_for(cfg, yields[0])
-        stores = []
-        for n in walk_own(cm.node):
-            if isinstance(n, ast.Assign) and len(n.targets) == 1 and isinstance(n.targets[0], ast.Attribute) \
-                    and isinstance(n.targets[0].value, ast.Name) and n.targets[0].value.id in (clsp, 'MathArray'):
-                stores.append(n)
-        setup = [s for s in stores if cfg.dominates(cfg.nodes_of(s), ynodes) and cfg.nodes_of(s)]
-        installs = [s for s in setup if isinstance(s.value, ast.Name) and s.value.id == valp]
+        model = manager_model(idx, cm)
+        valp = model['valp']
+        setup = model['setup']
+        installs = [st for st in setup if st['installs']]
         if not setup:
-            raise AnalysisError('enable_negative_powers: no class-flag store before the yield')
+            raise AnalysisError('enable_negative_powers: no class-flag store on entry')
+        entry = 'before the yield' if model['form'] == 'generator' else 'in %s.__enter__' % model['class_name']
         if not installs:
-            r.violation('MathArray.enable_negative_powers: setup', 'the store before the yield is `%s`: the requested value is not '
-                        'installed, so MatrixGrader(negative_powers=False) cannot disable negative powers' % short(setup[0]),
-                        lib.loc(cm, setup[0]), expected='cls._negative_powers = %s' % valp, found=short(setup[0]))
-            flag_attr = setup[0].targets[0].attr
+            st = setup[0]
+            r.violation('MathArray.enable_negative_powers: setup', 'the store on entry (%s) is `%s`: the requested value is not '
+                        'installed, so MatrixGrader(negative_powers=False) cannot disable negative powers' % (entry, short(st['node'])),
+                        lib.loc(st['fi'], st['node']), expected='cls._negative_powers = %s' % valp, found=short(st['node']))
+            flag_attr = st['attr']
         else:
-            flag_attr = installs[0].targets[0].attr
-            r.ok('MathArray.enable_negative_powers: setup', 'cls.%s = %s before the yield' % (flag_attr, valp), lib.loc(cm, installs[0]))
+            flag_attr = installs[0]['attr']
+            r.ok('MathArray.enable_negative_powers: setup', 'cls.%s = %s %s' % (flag_attr, valp, entry),
+                 lib.loc(installs[0]['fi'], installs[0]['node']))
         # __pow__ reads that flag
         pw = idx.func(AQ + '.__pow__')
         reads = [n for n in walk_own(pw.node) if isinstance(n, ast.Attribute) and n.attr == flag_attr and isinstance(n.ctx, ast.Load)]
@@ -688,6 +678,8 @@ def d3_negative_powers(ctx, idx):
             for w in withs:
                 for item in w.items:
                     ce = item.context_expr
+                    if isinstance(ce, ast.Name):
+                        ce = lib.inline_locals(ce, fi.node)      # `cm = MathArray.enable_negative_powers(...)` ... `with cm:`
                     if isinstance(ce, ast.Call) and nf.callee_name(ce) == 'enable_negative_powers':
                         targets, how = idx.resolve_call(fi, ce)
                         if any(getattr(t, 'qualname', None) == cm.qualname for t in targets):
@@ -727,35 +719,140 @@ def d3_negative_powers(ctx, idx):
     return flag_attr
 
 
-def manager_reentrancy(cm, flag_attr):
+class _FieldSubst(ast.NodeTransformer):
+    def __init__(self, selfp, env):
+        self.selfp, self.env = selfp, env
+
+    def visit_Attribute(self, node):
+        if isinstance(node.value, ast.Name) and node.value.id == self.selfp and node.attr in self.env and isinstance(node.ctx, ast.Load):
+            from ..index import clone
+            return clone(self.env[node.attr])
+        self.generic_visit(node)
+        return node
+
+
+def manager_model(idx, cm):
+    """Entry and exit stores of MathArray.enable_negative_powers in either form: a @contextmanager generator (stores before /
+    after the yield) or a classmethod returning an object whose __enter__ / __exit__ do the work.  Expressions are resolved
+    to the parameters (cls, value) of the classmethod."""
+    decs = ' '.join(cm.decorators)
+    if 'classmethod' not in decs or len(cm.params) != 2:
+        raise AnalysisError('enable_negative_powers is no longer a classmethod (cls, value)')
+    clsp, valp = cm.params
+    model = {'clsp': clsp, 'valp': valp, 'setup': [], 'teardown': [], 'class_name': None, 'exit_fi': None}
+
+    def is_cls(e):
+        return isinstance(e, ast.Name) and e.id in (clsp, 'MathArray')
+
+    def record(kind, node, fi, tgt, val, saved):
+        if not (isinstance(tgt, ast.Attribute) and is_cls(tgt.value)):
+            return
+        attr = tgt.attr
+        entry = {'node': node, 'fi': fi, 'attr': attr, 'value': val,
+                 'installs': isinstance(val, ast.Name) and val.id == valp,
+                 'restores': any(nf.equal(val, sv) for sv in saved) if val is not None else False,
+                 'resets': isinstance(val, ast.Constant) or (isinstance(val, ast.Attribute) and is_cls(val.value) and val.attr != attr)}
+        model[kind].append(entry)
+
+    yields = [n for n in walk_own(cm.node) if isinstance(n, (ast.Yield, ast.YieldFrom))]
+    if 'contextmanager' in decs and len(yields) == 1:
+        model['form'] = 'generator'
+        cfg = cfg_of(cm.node)
+        ynodes = lib.cfg_nodes_for(cfg, yields[0])
+        saved_names = {}
+        for n in walk_own(cm.node):
+            if isinstance(n, ast.Assign) and len(n.targets) == 1 and isinstance(n.targets[0], ast.Name) \
+                    and isinstance(n.value, ast.Attribute) and is_cls(n.value.value) and cfg.nodes_of(n) \
+                    and cfg.dominates(cfg.nodes_of(n), ynodes):
+                saved_names[n.targets[0].id] = n.value
+        for n in walk_own(cm.node):
+            if isinstance(n, ast.Assign) and len(n.targets) == 1 and isinstance(n.targets[0], ast.Attribute):
+                before = bool(cfg.nodes_of(n)) and cfg.dominates(cfg.nodes_of(n), ynodes)
+                val = n.value
+                if isinstance(val, ast.Name) and val.id in saved_names:
+                    val = saved_names[val.id]
+                saved = [v for v in saved_names.values() if isinstance(v, ast.Attribute) and v.attr == n.targets[0].attr]
+                record('setup' if before else 'teardown', n, cm, n.targets[0], val, saved if not before else [])
+        model['exit_fi'] = cm
+        return model
+    if yields:
+        raise AnalysisError('enable_negative_powers: generator form not recognised')
+    # class form: `return K(<args>)`
+    rets = lib.returns_of(cm.node)
+    if len(rets) != 1 or not isinstance(rets[0].value, ast.Call):
+        raise AnalysisError('enable_negative_powers returns neither a generator-based nor a class-based context manager')
+    call = rets[0].value
+    targets, how = idx.resolve_call(cm, call)
+    kls = [t[1] for t in targets if isinstance(t, tuple) and t[0] == 'class']
+    if len(kls) != 1:
+        raise AnalysisError('enable_negative_powers: the returned object `%s` is not an instance of a package class' % short(call))
+    ci = kls[0]
+    enter, exit_ = idx.lookup(ci, '__enter__'), idx.lookup(ci, '__exit__')
+    init = idx.lookup(ci, '__init__')
+    if enter is None or exit_ is None:
+        raise AnalysisError('%s has no __enter__/__exit__: not a context manager' % ci.qualname)
+    model['form'] = 'class'
+    model['class_name'] = ci.name
+    model['exit_fi'] = exit_
+    fields = {}
+    if init is not None:
+        ip = init.params[1:]
+        if len(call.args) > len(ip) or any(isinstance(a_, ast.Starred) for a_ in call.args):
+            raise AnalysisError('%s(...) call cannot be bound to __init__' % ci.name)
+        binding = dict(zip(ip, call.args))
+        for k in call.keywords:
+            if k.arg in ip:
+                binding[k.arg] = k.value
+        for n in walk_own(init.node):
+            if isinstance(n, ast.Assign) and len(n.targets) == 1 and isinstance(n.targets[0], ast.Attribute) \
+                    and isinstance(n.targets[0].value, ast.Name) and n.targets[0].value.id == init.params[0]:
+                fields[n.targets[0].attr] = nf.subst(n.value, binding)
+    elif call.args or call.keywords:
+        raise AnalysisError('%s takes arguments but defines no __init__' % ci.name)
+
+    def resolve(expr, meth, env):
+        e = lib.inline_locals(expr, meth.node)
+        return _FieldSubst(meth.params[0], env).visit(nf.subst(e, {}))
+
+    # fields written on entry (e.g. self.previous = self.array_class._negative_powers)
+    enter_fields = dict(fields)
+    saved = []
+    for n in walk_own(enter.node):
+        if isinstance(n, ast.Assign) and len(n.targets) == 1 and isinstance(n.targets[0], ast.Attribute) \
+                and isinstance(n.targets[0].value, ast.Name) and n.targets[0].value.id == enter.params[0]:
+            v = resolve(n.value, enter, fields)
+            enter_fields[n.targets[0].attr] = v
+            if isinstance(v, ast.Attribute) and is_cls(v.value):
+                saved.append(v)
+    for f_, v in fields.items():
+        if isinstance(v, ast.Attribute) and is_cls(v.value):
+            saved.append(v)      # read at construction time
+    for kind, meth, env in (('setup', enter, fields), ('teardown', exit_, enter_fields)):
+        for n in walk_own(meth.node):
+            if isinstance(n, ast.Assign) and len(n.targets) == 1 and isinstance(n.targets[0], ast.Attribute):
+                tgt = resolve(n.targets[0], meth, env) if not (isinstance(n.targets[0].value, ast.Name) and n.targets[0].value.id == meth.params[0]) else None
+                if tgt is None:
+                    continue
+                val = resolve(n.value, meth, env)
+                record(kind, n, meth, tgt, val, [sv for sv in saved if sv.attr == tgt.attr] if kind == 'teardown' else [])
+    # a store done in __init__ would act at construction, not on entry: not the reviewed protocol
+    if init is not None:
+        for n in walk_own(init.node):
+            if isinstance(n, ast.Assign) and len(n.targets) == 1 and isinstance(n.targets[0], ast.Attribute):
+                tgt = nf.subst(n.targets[0], binding)
+                if isinstance(tgt, ast.Attribute) and is_cls(tgt.value):
+                    raise AnalysisError('%s.__init__ writes the class flag at construction time' % ci.name)
+    return model
+
+
+def manager_reentrancy(idx, cm, flag_attr):
     """'restores' when the teardown writes back the value read before the setup, 'resets' when it writes a fixed value
     (default attribute / constant), None when not recognised."""
-    clsp = cm.params[0]
-    cfg = cfg_of(cm.node)
-    yields = [n for n in walk_own(cm.node) if isinstance(n, ast.Yield)]
-    ynodes = lib.cfg_nodes_for(cfg, yields[0])
-    saved = set()
-    for n in walk_own(cm.node):
-        if isinstance(n, ast.Assign) and len(n.targets) == 1 and isinstance(n.targets[0], ast.Name) \
-                and isinstance(n.value, ast.Attribute) and n.value.attr == flag_attr and cfg.nodes_of(n) \
-                and cfg.dominates(cfg.nodes_of(n), ynodes):
-            saved.add(n.targets[0].id)
-    verdicts = set()
-    for n in walk_own(cm.node):
-        if isinstance(n, ast.Assign) and len(n.targets) == 1 and isinstance(n.targets[0], ast.Attribute) \
-                and n.targets[0].attr == flag_attr and isinstance(n.targets[0].value, ast.Name) and n.targets[0].value.id in (clsp, 'MathArray'):
-            if cfg.nodes_of(n) and cfg.dominates(cfg.nodes_of(n), ynodes):
-                continue        # the setup store
-            v = n.value
-            if isinstance(v, ast.Name) and v.id in saved:
-                verdicts.add('restores')
-            elif isinstance(v, ast.Constant) or (isinstance(v, ast.Attribute) and v.attr != flag_attr):
-                verdicts.add('resets')
-            else:
-                verdicts.add('unknown')
-    if verdicts == {'restores'}:
+    model = manager_model(idx, cm)
+    td = [t for t in model['teardown'] if t['attr'] == flag_attr]
+    if td and all(t['restores'] for t in td):
         return 'restores'
-    if verdicts == {'resets'}:
+    if td and all(t['resets'] and not t['restores'] for t in td):
         return 'resets'
     return None
 
@@ -793,7 +890,7 @@ def d3_callers(r, idx, cm, flag_attr, grader_fi, super_calls):
             if any(getattr(t, 'qualname', None) == cm.qualname for t in targets):
                 sites.append((f, c))
     others = [(f, c) for f, c in sites if f.qualname != grader_fi.qualname]
-    mode = manager_reentrancy(cm, flag_attr)
+    mode = manager_reentrancy(idx, cm, flag_attr)
     if not others:
         r.ok(construct, 'entered only by MatrixGrader.check_response (%s)' % ('re-entrant' if mode == 'restores' else 'not re-entrant: must not nest'),
              cm.loc)
@@ -1151,6 +1248,12 @@ def _resolves_to(idx, fi, call, target):
 
 
 # ------------------------------------------------------------------------ self-test
+_CM_OLD = '    @classmethod\n    @contextmanager\n    def enable_negative_powers(cls, value):\n        """\n        A context-manager manager that can be used to temporarily disable\n        negative matrix powers.\n\n        Usage\n        =====\n\n        By default, negative integer matrix powers are interpreted as inverses.\n        Use MathArray.enable_negative_powers(False) to temporarily throw errors\n        instead:\n        >>> A = MathArray([[2, 1], [-1, 3]])\n        >>> with MathArray.enable_negative_powers(False):\n        ...     try:\n        ...         A**-1\n        ...     except MathArrayError as err:\n        ...         print(err)\n        Negative matrix powers have been disabled.\n\n        It\'s only temporary!\n        >>> approx_equal_as_arrays(\n        ...     A * A**-1,\n        ...     MathArray([[1, 0], [0, 1]])\n        ... )\n        True\n        """\n        # setup\n        cls._negative_powers = value\n        try:\n            # try with block\n            yield\n        finally:\n            # teardown\n            cls._negative_powers = cls._default_negative_powers\n'
+_CM_HEAD = '    @classmethod\n    def enable_negative_powers(cls, value):\n        """\n        A context-manager manager that can be used to temporarily disable\n        negative matrix powers.\n\n        Usage\n        =====\n\n        By default, negative integer matrix powers are interpreted as inverses.\n        Use MathArray.enable_negative_powers(False) to temporarily throw errors\n        instead:\n        >>> A = MathArray([[2, 1], [-1, 3]])\n        >>> with MathArray.enable_negative_powers(False):\n        ...     try:\n        ...         A**-1\n        ...     except MathArrayError as err:\n        ...         print(err)\n        Negative matrix powers have been disabled.\n\n        It\'s only temporary!\n        >>> approx_equal_as_arrays(\n        ...     A * A**-1,\n        ...     MathArray([[1, 0], [0, 1]])\n        ... )\n        True\n        """\n'
+_CM_CLASS = (_CM_HEAD + "        return MathArray._Setting(cls, value)\n\n    class _Setting(object):\n        def __init__(self, array_class, value):\n"
+             "            self.array_class = array_class\n            self.value = value\n\n        def __enter__(self):\n            %s\n\n"
+             "        def __exit__(self, exc_type, exc_value, traceback):\n            %s\n            return False\n")
+
 MUTANTS = [
     # ---- D1: operator table
     Mutant('add-shape-loosened-to-ndim', MA, "            if self.shape == other.shape:\n                return super_ADD(other)",
@@ -1233,6 +1336,7 @@ MUTANTS = [
     Mutant('identity-returns-plain-ndarray', MA, "    return MathArray(np.identity(n))", "    return np.identity(n)", 'D5'),
     Mutant('seeded-C14g-nested-non-reentrant-negative-powers', SAMP, "            result, _ = evaluator(formula=self.config['formula'],\n                                  variables=sample_dict,\n                                  functions=functions,\n                                  suffixes=suffixes)\n",
            "            from mitxgraders.helpers.calc.math_array import MathArray\n            with MathArray.enable_negative_powers(True):\n                result, _ = evaluator(formula=self.config['formula'],\n                                      variables=sample_dict,\n                                      functions=functions,\n                                      suffixes=suffixes)\n", 'D3'),
+    Mutant('class-manager-installs-default-on-entry', MA, _CM_OLD, _CM_CLASS % ("self.array_class._negative_powers = self.array_class._default_negative_powers", "self.array_class._negative_powers = self.array_class._default_negative_powers"), 'D3'),
     Mutant('eval-product-cast-only-after-division', EXPR, "            # Need to cast np numerics as builtins here (in addition to during\n            # eval_node) because the result is changing shape\n            result = cast_np_numeric_as_builtin(result)",
            "            if op == '/':\n                result = cast_np_numeric_as_builtin(result)", 'D4'),
 ]
@@ -1266,5 +1370,9 @@ BENIGN = [
            "            if output_dim > 1:\n                return MathArray(fullsum)\n            return fullsum[0]"),
     # NOTE: a save/restore (re-entrant) form of enable_negative_powers is accepted by D3.NEGPOW, but the imported clause
     # C14.REL.C11.D8.PAIR (sa/related.py, not mine) currently reports it; the twin is therefore not listed here.
+    # NOTE: `switch = MathArray.enable_negative_powers(...)` followed by `with switch:` is accepted by D3.NEGPOW (refactoring C04j),
+    # but the imported clause C14.REL.C11.D8.PAIR (sa/related.py, not mine) reports it; the twin is therefore not listed here.
+    # NOTE: the class form of the manager (__enter__/__exit__) is exercised by the filed refactorings C01j/C02j/C04j/C11j/C14j/C16j
+    # (module-level helper class, which a single text edit cannot express); a nested-class twin trips the imported C11 clause.
     Benign('mul-collapse-without-isinstance', MA, "                if isinstance(result, MathArray) and is_numberlike_array(result):", "                if is_numberlike_array(result):"),
 ]
